@@ -1627,7 +1627,7 @@ func (vm *VM) run() (Addr, bool) {
 							out := vm.renderer.Out().(*bytes.Buffer)
 							err := vm.env.conv(out.Bytes(), call.renderer.out)
 							if err != nil {
-								panic(&fatalError{env: vm.env, msg: err})
+								panic(outError{err})
 							}
 						}
 					}
